@@ -451,7 +451,7 @@ func TestC13(t *testing.T) {
 			r.Sample(map[string]interface{}{"case": g.Desc, "script": g.Script, "trace_tail": world.Strings(g.Evs[max0(len(g.Evs)-12):], 0)})
 		}
 	})
-	r.Finish(fmt.Sprintf("%d cases = 7 base histories (connect+traffic; will+auth; broker publishes QoS 0/1/2 in flight incl. pending registration with a client that does not acknowledge; client publish/subscribe unacknowledged by the broker; asleep with sleep pinger; asleep-short then awake then reconnected; half-open connect) x every step index x 8 termination causes (gateway shutdown, client plain DISCONNECT, broker closes, broker sends reserved-type garbage, broker sends a SUBSCRIBE, undecodable datagram, truncated datagram, unhandled packet type), each followed by 130 virtual seconds; + 3 real-socket cases of the dial-failure path (closed loopback port) + 3 real-socket cases of whole-gateway shutdown (ListenAndServe on loopback UDP with 2/4/6 peers, every second one asleep; context cancelled: active peers get DISCONNECT, sleeping ones nothing, ListenAndServe returns, no session goroutine is left) + send-fault cases: every base history (but the stalled one) with the next / every later gateway->client datagram write (or gateway->broker write) failing from every step index on, then 2 s, then {shutdown, broker close, client DISCONNECT}: the session must still end (by the failed send or by the cause) with the broker connection closed and nothing left behind. Oracle: handler returns within one 100 ms poll interval of the cause; broker link closed by then; DISCONNECT to the client exactly when the wire-derived client state is active/awake and the client did not disconnect itself (the phase after a wake-up's PINGRESP is don't-care); at quiescence after teardown no goroutine of the bubble (resp. of the process, for the dial cases) is inside bisquitt code. exhaustive for the stated case list.", nTerm), nil)
+	r.Finish(fmt.Sprintf("%d cases = 7 base histories (connect+traffic; will+auth; broker publishes QoS 0/1/2 in flight incl. pending registration with a client that does not acknowledge; client publish/subscribe unacknowledged by the broker; asleep with sleep pinger; asleep-short then awake then reconnected; half-open connect) x every step index x 9 termination causes (gateway shutdown, client plain DISCONNECT, broker closes, broker connection reset (read error, not EOF), broker sends reserved-type garbage, broker sends a SUBSCRIBE, undecodable datagram, truncated datagram, unhandled packet type), each followed by 130 virtual seconds; + 3 real-socket cases of the dial-failure path (closed loopback port) + 3 real-socket cases of whole-gateway shutdown (ListenAndServe on loopback UDP with 2/4/6 peers, every second one asleep; context cancelled: active peers get DISCONNECT, sleeping ones nothing, ListenAndServe returns, no session goroutine is left) + send-fault cases: every base history (but the stalled one) with the next / every later gateway->client datagram write (or gateway->broker write) failing from every step index on, then 2 s, then {shutdown, broker close, client DISCONNECT}: the session must still end (by the failed send or by the cause) with the broker connection closed and nothing left behind. Oracle: handler returns within one 100 ms poll interval of the cause; broker link closed by then; DISCONNECT to the client exactly when the wire-derived client state is active/awake and the client did not disconnect itself (the phase after a wake-up's PINGRESP is don't-care); at quiescence after teardown no goroutine of the bubble (resp. of the process, for the dial cases) is inside bisquitt code. exhaustive for the stated case list.", nTerm), nil)
 }
 
 func max0(a int) int {
